@@ -427,6 +427,7 @@ theorem scopedOnce (beh : Beh) (hnil : NoNilOutputs beh) (descs : List Desc) (ra
       next hl =>
         split
         · exact SRes.refl inv ho
+        · exact SRes.refl inv ho
         next hmiss =>
           refine ihC st s d R inv ho hs hd (by rw [hl]; simp) hR ?_
           intro _
@@ -559,7 +560,7 @@ theorem scopedOnce (beh : Beh) (hnil : NoNilOutputs beh) (descs : List Desc) (ra
               · subst h; exact hc hsc
               · rw [cfg.reg.voidAlone d hd hvoid] at h; simp at h
             next hmulti =>
-              simp only [hnil d.ctor]
+              simp only [hnil d.ctor, markAbsent_none]
               generalize hsibs' : (if (d.sibs.filterMap (findDesc (bumpInv ra.1 d.ctor).descs)).isEmpty then [d]
                 else d.sibs.filterMap (findDesc (bumpInv ra.1 d.ctor).descs)) = sibs'
               have hs'life : ∀ sd ∈ sibs', sd.life = d.life := by
